@@ -33,11 +33,12 @@ Proof. vm_compute. repeat split; reflexivity. Qed.
 
 Section Summary.
 Variable lang : Z.
+Variable yg : bool.
 Variable exs : list str.
 
-Notation line_cells := (line_cells lang exs).
-Notation totals_cells := (totals_cells lang exs).
-Notation step_ops := (step_ops lang exs).
+Notation line_cells := (line_cells lang yg exs).
+Notation totals_cells := (totals_cells lang yg exs).
+Notation step_ops := (step_ops lang yg exs).
 
 Fixpoint sum_ops_from (off : Z) (es : list emission) : list op :=
   match es with [] => [] | e :: t => step_ops e off ++ sum_ops_from (off + 1) t end.
@@ -57,7 +58,7 @@ Lemma step_appends st e :
   let offm := if amem y (ss_off st) then ss_off st else aset y gen_jp_summary_start (ss_off st) in
   let off := aget_d 0 y offm in
   let sheets := if off =? gen_jp_summary_start then aset y (labels gen_jp_tmpl_summary_cells) (ss_sheets st) else ss_sheets st in
-  summary_step lang exs st e =
+  summary_step lang yg exs st e =
   {| ss_off := aset y (off + 1) offm; ss_sheets := aset y (aget_d [] y sheets ++ step_ops e off) sheets |}.
 Proof. reflexivity. Qed.
 
@@ -68,7 +69,7 @@ Definition inv (pre : list emission) (st : sumst) : Prop :=
     (es = [] -> aget y (ss_off st) = None /\ aget y (ss_sheets st) = None) /\
     (es <> [] -> aget y (ss_off st) = Some (gen_jp_summary_start + Z.of_nat (length es)) /\ aget y (ss_sheets st) = Some (spec_ops es)).
 
-Lemma inv_step pre st e : inv pre st -> inv (pre ++ [e]) (summary_step lang exs st e).
+Lemma inv_step pre st e : inv pre st -> inv (pre ++ [e]) (summary_step lang yg exs st e).
 Proof.
   intros I y. cbv zeta. rewrite step_appends. cbv zeta. cbn [ss_off ss_sheets].
   rewrite filter_app. cbn [filter].
@@ -103,35 +104,35 @@ Proof.
     rewrite A2. exact Iy.
 Qed.
 
-Lemma inv_fold l : forall pre st, inv pre st -> inv (pre ++ l) (fold_left (summary_step lang exs) l st).
+Lemma inv_fold l : forall pre st, inv pre st -> inv (pre ++ l) (fold_left (summary_step lang yg exs) l st).
 Proof.
   induction l as [|e l IH]; intros pre st H; cbn [fold_left]; [rewrite app_nil_r; exact H|].
   replace (pre ++ e :: l) with ((pre ++ [e]) ++ l) by (rewrite <- app_assoc; reflexivity).
   apply IH. apply inv_step. exact H.
 Qed.
 
-Lemma summary_state_inv ems : inv ems (summary_state lang exs ems).
+Lemma summary_state_inv ems : inv ems (summary_state lang yg exs ems).
 Proof.
   unfold summary_state. apply (inv_fold ems [] {| ss_off := []; ss_sheets := [] |}).
   intros y. cbn. split; [auto|congruence].
 Qed.
 
-Lemma step_keys_nodup st e : NoDup (map fst (ss_sheets st)) -> NoDup (map fst (ss_sheets (summary_step lang exs st e))).
+Lemma step_keys_nodup st e : NoDup (map fst (ss_sheets st)) -> NoDup (map fst (ss_sheets (summary_step lang yg exs st e))).
 Proof.
   intros H. rewrite step_appends. cbv zeta. cbn [ss_sheets]. apply aset_NoDup.
   match goal with |- context [if ?c then _ else _] => destruct c end; [apply aset_NoDup|]; exact H.
 Qed.
 
-Lemma summary_keys_nodup ems : NoDup (map fst (ss_sheets (summary_state lang exs ems))).
+Lemma summary_keys_nodup ems : NoDup (map fst (ss_sheets (summary_state lang yg exs ems))).
 Proof.
-  assert (G : forall l st, NoDup (map fst (ss_sheets st)) -> NoDup (map fst (ss_sheets (fold_left (summary_step lang exs) l st)))).
+  assert (G : forall l st, NoDup (map fst (ss_sheets st)) -> NoDup (map fst (ss_sheets (fold_left (summary_step lang yg exs) l st)))).
   { induction l as [|e l IH]; intros st H; cbn [fold_left]; [exact H|]. apply IH, step_keys_nodup, H. }
   apply G. constructor.
 Qed.
 
 (** one summary sheet per year that has an emission, holding exactly the operations of those emissions *)
 Lemma summary_sheet_of_year ems y ops :
-  In (y, ops) (ss_sheets (summary_state lang exs ems)) <->
+  In (y, ops) (ss_sheets (summary_state lang yg exs ems)) <->
   filter (yof y) ems <> [] /\ ops = spec_ops (filter (yof y) ems).
 Proof.
   pose proof (summary_state_inv ems y) as I. cbv zeta in I. destruct I as [I0 I1]. split.
@@ -244,7 +245,7 @@ Proof.
     apply sum_ops_bounded; lia.
 Qed.
 
-Lemma summary_sheets_ok ems s : In s (summary_sheets lang exs ems) -> sheet_ok s = true.
+Lemma summary_sheets_ok ems s : In s (summary_sheets lang yg exs ems) -> sheet_ok s = true.
 Proof.
   unfold summary_sheets. intros H. apply in_map_iff in H. destruct H as [[y ops] [<- Hin]]. cbn [fst snd].
   apply summary_sheet_of_year in Hin. destruct Hin as [_ ->]. apply sheet_of_ok, spec_ops_bounded.
